@@ -379,7 +379,7 @@ META = {
     'required_covers': ['nontrivial', 'discarded', 'sink-burst'],
     'bounds': {'quick': 'pipelines gen->port->wire->sink, {gen,gen}->scheduler(6 kinds)->port->sink, gens->FlowDemux->{port,port}->sink, '
                         'gens->Simple/FairPacketSwitch(SP,WFQ,DRR,VC)->sink, gen->TokenBucket->SP->sink, gen->TwoRateTokenBucket->wire->sink; '
-                        '2 (+1) packets per main generator; all generator gaps/sizes, wire delays, loss draws symbolic; PacketSink in 4 recording modes',
+                        '2 (+1) packets per main generator; all generator gaps/sizes, wire delays, loss draws symbolic; PacketSink in 4 recording modes; PacketSink with and without debug receiving 12 packets (11 in one instant)',
                'thorough': '3 (+1) packets per main generator for the SP/RR/WRR/VC fan-in, demux, port-wire and two-rate pipelines, 2 (+1) elsewhere'},
     'assumptions': ['DistPacketGenerator arrival_dist returns +inf after the n-th draw (the run is driven until the agenda holds only that)'],
     'stubs': ['arrival_dist / size_dist / delay_dist -> symbolic draws', 'onl.netdev.wire.random.uniform -> symbolic draw'],
